@@ -134,6 +134,12 @@ def pred_c04(T, inp):
         return "canonical node -> (element, mass, rad, class) maps differ"
     if {frozenset(e) for e in c.edges} != {frozenset(e) for e in d.edges}:
         return "canonical edge sets differ"
+    # multi-step: a canonical graph, renumbered (nx.relabel_nodes / copy keep graph-level attributes), canonicalized again
+    n = len(inp["atoms"])
+    ren = inp.get("post_relabel") or list(reversed(range(n)))
+    e = T.canonicalize(T.nx.relabel_nodes(c, {i: ren[i] for i in range(n)}, copy=True))
+    if {a: key(c.nodes[a]) for a in c} != {a: key(e.nodes[a]) for a in e} or {frozenset(x) for x in c.edges} != {frozenset(x) for x in e.edges}:
+        return "canonicalizing a renumbered canonical graph again does not give back the canonical labelled graph"
 
 
 def pred_c13(T, inp):
@@ -631,9 +637,37 @@ PREDICATES = {
 }
 
 
+class EvaluationTimeout(BaseException):
+    pass
+
+
+EVAL_TIMEOUT_S = {"c15": 900, "default": 120}
+
+
 def run_pred(T, kind, inp):
     """returns None (holds) or a description. A crash of the code under test is reported as a failure of the
-    predicate only where the predicate says so; unexpected exceptions propagate as 'what'."""
+    predicate only where the predicate says so; unexpected exceptions propagate as 'what'. An evaluation that
+    does not finish within the per-kind time limit (code under test hangs) is reported as a failure too."""
+    import signal
+    limit = EVAL_TIMEOUT_S.get(kind, EVAL_TIMEOUT_S["default"])
+
+    def on_alarm(signum, frame):
+        raise EvaluationTimeout()
+    use_alarm = threading.current_thread() is threading.main_thread()
+    if use_alarm:
+        old = signal.signal(signal.SIGALRM, on_alarm)
+        signal.alarm(limit)
+    try:
+        return _run_pred(T, kind, inp)
+    except EvaluationTimeout:
+        return f"the code under test did not return within {limit} s on this input (non-termination)"
+    finally:
+        if use_alarm:
+            signal.alarm(0)
+            signal.signal(signal.SIGALRM, old)
+
+
+def _run_pred(T, kind, inp):
     try:
         return PREDICATES[kind](T, inp)
     except (T.TucanParserException, T.MolfileParserException) as e:
@@ -810,6 +844,10 @@ def gen_c02(T, tier, seed, budget, out: Outcome):
                 atoms = [dict(a) for a in atoms0]
                 atoms[i].update(lab)
                 variants.append(atoms)
+                if "rad" in lab:
+                    both = [dict(a) for a in atoms]
+                    both[i]["mass"] = 13 if atoms0[i]["sym"] == "C" else 18 if atoms0[i]["sym"] == "O" else 15
+                    variants.append(both)
         pairs = list(itertools.combinations(range(len(variants)), 2))
         rnd.shuffle(pairs)
         for i, j in pairs[: (40 if tier == "quick" else 400)]:
@@ -1177,9 +1215,9 @@ def gen_c15(T, tier, seed, budget, out: Outcome):
     out.rule = ("paths, cycles, ladders, combs, stars, complete graphs, isolated atoms, many 2-atom components with n up to the stated sizes, run through "
                 "canonicalize + serialize (+ parse). Non-trivial = families whose refinement depth grows with n (path, cycle, ladder, comb) at n >= 1000.")
     sizes = [("path", 1), ("path", 2), ("path", 3), ("cycle", 3), ("star", 60), ("complete", 30), ("isolated", 1), ("isolated", 300), ("components", 200),
-             ("ladder", 150), ("comb", 150), ("cycle", 600), ("path", 2100)]
+             ("ladder", 150), ("comb", 150), ("cycle", 600), ("isolated", 1700), ("path", 2100)]
     if tier != "quick":
-        sizes += [("cycle", 2100), ("ladder", 1100), ("comb", 1100), ("path", 3000), ("isolated", 3000), ("components", 1500), ("star", 2000), ("complete", 70)]
+        sizes += [("cycle", 2100), ("ladder", 1100), ("comb", 1100), ("path", 3000), ("isolated", 3000), ("components", 1600), ("star", 2000), ("complete", 70)]
     for fam, n in sizes:
         if time.time() - t0 > budget and n > 600:
             continue
@@ -1270,6 +1308,12 @@ def gen_c14(repo, tier, seed, budget, out: Outcome, workdir):
         t = open(f).read()
         if len(t) < 6000:
             items.append({"kind": "molfile", "text": t})
+    co = lambda props: "\n".join(["co", "  prog", "", "  2  1  0  0  0  0  0  0  0  0999 V2000",
+                                   "    0.0000    0.0000    0.0000 C   0  0  0  0  0  0  0  0  0  0  0  0",
+                                   "    1.2000    0.0000    0.0000 O   0  0  0  0  0  0  0  0  0  0  0  0",
+                                   "  1  2  2  0  0  0  0"] + props + ["M  END"])
+    for props in ([], ["M  ISO  1   1  13"], ["M  RAD  1   2   2"], ["M  ISO  1   2  -5"], ["M  CHG  1   1   1"], []):
+        items.append({"kind": "molfile", "text": co(props)})  # same atom lines, different property blocks, one rejected file
     for s in VALID_SENTENCES + ["C2/(1-1)", "C/(1-2)", "Cx/", "C2/(1-2)/(1:mass=2)(1:mass=3)", "((", "C2H6O/(1-3)(2-3", "H2O/(1-3)(2-3)/(1:mass=2)(3:rad=2"]:
         items.append({"kind": "tucan", "text": s})
     wl = os.path.join(workdir, "c14_workload.py")
